@@ -67,6 +67,8 @@ Emit == PrintT(ToJson([ p |-> p, data |-> data, cnt |-> cnt,
                         small |-> SmallInfo ]))
 
 GenAlphabet == {0, 1, 2, 3}
+GenAlphabet01 == {0, 1}
+GenAlphabet012 == {0, 1, 2}
 GenAlphabetB == {0, 1, 2, 5}
 GenAlphabetC == {0, 3, 4, 9}
 GenPSet == {Zero, Norm(1, 4), Norm(1, 2), Norm(3, 4), One}
